@@ -513,9 +513,23 @@ Definition ttl_ceiling (v : variant) (ns : list (option (N * N))) : N :=
     let neg := negative_aaaa_ttl ns in
     if 0 <? neg then neg else no_soa_ttl_ceiling.
 Definition a_ttl (r : rr) : N := match r with RA _ t _ => t | _ => 0 end.
-Definition synth_ttl (v : variant) (ns : list (option (N * N))) (addrs : list rr) : N :=
-  fold_left (fun ttl a => if a_ttl a <? ttl then a_ttl a else ttl) addrs (ttl_ceiling v ns).
+(* since af44539: the request tree's bound.  [cut] is what synthesise reads off
+   the tree at that moment: None = ResponseMetaFrom(ctx).CutUntil() is zero
+   (unbounded, or no ResponseMeta at all), Some s = the whole seconds left until
+   that instant, uint64(max(0, time.Until(cut)) / time.Second).  The TTL is
+   lowered to it, never raised. *)
+Definition bound_ttl (cut : option N) (ttl : N) : N :=
+  match cut with
+  | Some secs => if secs <? ttl then secs else ttl
+  | None => ttl
+  end.
+Definition synth_ttl (v : variant) (ns : list (option (N * N))) (addrs : list rr) (cut : option N) : N :=
+  bound_ttl cut (fold_left (fun ttl a => if a_ttl a <? ttl then a_ttl a else ttl) addrs (ttl_ceiling v ns)).
 
+Definition rr_ttl (r : rr) : N :=
+  match r with
+  | RA _ t _ | RAAAA _ t _ | RCNAME _ t _ | RDNAME _ t _ | RPTR _ t _ | ROther _ t _ => t
+  end.
 Definition cap_ttl (ttl : N) (r : rr) : rr :=
   match r with
   | RCNAME o t x => RCNAME o (if ttl <? t then ttl else t) x
@@ -628,7 +642,7 @@ Definition fallback (v : variant) (m : msg) (same : bool) (aq : bool) : result :
                 else reply_of false m in
   mk_result PFallback (Some r) aq true.
 
-Definition synthesise (v : variant) (c : compiled) (m : msg) (same : bool) (al : alookup) : result :=
+Definition synthesise (v : variant) (c : compiled) (m : msg) (same : bool) (al : alookup) (cut : option N) : result :=
   match al with
   | QNone => fallback v m same false
   | QErr k =>
@@ -641,7 +655,7 @@ Definition synthesise (v : variant) (c : compiled) (m : msg) (same : bool) (al :
       if negb (m_rcode ar =? 0) || (length addrs =? 0)%nat then
         mk_result PABasis (Some (mk_reply false (m_rcode ar) false (basis_edes m) chain)) true true
       else
-        let ttl := synth_ttl v (m_ns m) addrs in
+        let ttl := synth_ttl v (m_ns m) addrs cut in
         let syn := synth_rrs c ttl addrs in
         if (length syn =? 0)%nat then fallback v m same true
         else mk_result PSynth (Some (mk_reply false 0 false (basis_edes m) (map (cap_ttl ttl) chain ++ syn))) true true
@@ -649,8 +663,9 @@ Definition synthesise (v : variant) (c : compiled) (m : msg) (same : bool) (al :
 
 (* responseWriter.WriteMsg.  mark: 0 none, 1 the ResponseMeta cached-failure
    marker, 2 / 3 a request-local failure marker (attempt limit / other);
-   work: a recursion-work enforcement error is latched on the request. *)
-Definition write_msg (v : variant) (c : compiled) (m : msg) (mark : N) (work : bool) (al : alookup) : result :=
+   work: a recursion-work enforcement error is latched on the request;
+   cut: the request tree's bound as synthesise will read it (see bound_ttl). *)
+Definition write_msg (v : variant) (c : compiled) (m : msg) (mark : N) (work : bool) (al : alookup) (cut : option N) : result :=
   let pass := mk_result PPass (Some (reply_of true m)) false true in
   if m_trunc m || (m_nq m =? 0) then pass
   else if m_rcode m =? rcode_nxdomain then pass
@@ -667,12 +682,12 @@ Definition write_msg (v : variant) (c : compiled) (m : msg) (mark : N) (work : b
        else pass)
     else
       synthesise v c (mk_msg (m_trunc m) (m_nq m) (m_rcode m) (m_ad m) (m_edes m) ans (m_ns m))
-                 (stripped =? 0)%nat al
-  else synthesise v c m true al.
+                 (stripped =? 0)%nat al cut
+  else synthesise v c m true al cut.
 
 (* the whole handler in front of a scripted next handler ([down] = what it
    writes, with its marker) and a scripted Queryer *)
-Definition serve (v : variant) (cf : config) (q : query) (down : option (msg * N)) (work : bool) (al : alookup) : result :=
+Definition serve (v : variant) (cf : config) (q : query) (down : option (msg * N)) (work : bool) (al : alookup) (cut : option N) : result :=
   let c := compile cf in
   let untouched p :=
     match down with
@@ -686,7 +701,7 @@ Definition serve (v : variant) (cf : config) (q : query) (down : option (msg * N
   | GWrap =>
       match down with
       | None => mk_result PNothing None false true
-      | Some (m, mark) => write_msg v c m mark work al
+      | Some (m, mark) => write_msg v c m mark work al cut
       end
   end.
 
@@ -704,5 +719,5 @@ Definition al_of_script (s : sub_script) : alookup :=
   | SubNothing => QErr 2
   | SubWrite m mark => if mark =? 2 then QErr 1 else if mark =? 3 then QErr 2 else QResp m
   end.
-Definition serve_wire (cf : config) (q : query) (down : option (msg * N)) (s : sub_script) : result :=
-  serve cur cf q down false (al_of_script s).
+Definition serve_wire (cf : config) (q : query) (down : option (msg * N)) (s : sub_script) (cut : option N) : result :=
+  serve cur cf q down false (al_of_script s) cut.
